@@ -341,6 +341,7 @@ void EGLPNUM_TYPENAME_ILLlpdata_init (
 		EGLPNUM_TYPENAME_ILLmatrix_init (&lp->A);
 		EGLPNUM_TYPENAME_ILLmatrix_init (&lp->sos);
 		lp->rA = 0;
+		lp->sos_type = NULL;
 		lp->is_sos_mem = NULL;
 		lp->refrowname = NULL;
 		lp->refind = -1;
@@ -384,6 +385,7 @@ void EGLPNUM_TYPENAME_ILLlpdata_free (
 			EGLPNUM_TYPENAME_ILLlp_rows_clear (lp->rA);
 			ILL_IFFREE(lp->rA);
 		}
+		ILL_IFFREE(lp->sos_type);
 		ILL_IFFREE(lp->is_sos_mem);
 		ILL_IFFREE(lp->refrowname);
 
